@@ -283,6 +283,12 @@ fn via_session_line(networks: usize, burst: usize, signals: usize, between: usiz
 /// included), `clients` connections opened one after the other and ALL KEPT OPEN; every client registers and sends one
 /// command, the last one a stop-all; every command must reach the network's handler while all of them are still connected.
 pub fn via_server(out: &mut Out, clients: usize) {
+    via_server_late(out, clients, 0)
+}
+
+/// `late`: after the `clients` simultaneous ones have all left, that many more connect one after the other (a server that has
+/// been busy once serves the next client like the first)
+pub fn via_server_late(out: &mut Out, clients: usize, late: usize) {
     use std::io::Write;
     crate::sess::ensure_instance();
     let rt = tokio::runtime::Builder::new_multi_thread().worker_threads(2).enable_all().build().unwrap();
@@ -303,9 +309,14 @@ pub fn via_server(out: &mut Out, clients: usize) {
         runtime.schedule_net_service::<StubNet, NetCfg>(NetCfg { idx: 0, shared: shared.clone() }, Duration::from_secs(3600));
         tokio::time::sleep(Duration::from_millis(30)).await;
         let mut conns = vec![];
-        for k in 0..clients {
+        for k in 0..clients + late {
+            if k >= clients {
+                // everybody has left
+                conns.clear();
+                tokio::time::sleep(Duration::from_millis(60)).await;
+            }
             let p2 = path.clone();
-            let last = k + 1 == clients;
+            let last = k + 1 == clients + late;
             let v = 100 + k as i16;
             // blocking client on its own thread (connect, register, one command), the connection is handed back and kept open
             let c = tokio::task::spawn_blocking(move || {
@@ -341,7 +352,7 @@ pub fn via_server(out: &mut Out, clients: usize) {
     drop(rt);
     let _ = std::fs::remove_dir_all(&dir);
     out.case(&format!("bus 1 {}", toks.join(" ")), &lists.join(";"), true);
-    out.count(&format!("{} clients connected at once through the real server", clients));
+    out.count(&format!("{} clients connected at once through the real server{}", clients, if late > 0 { ", then late ones" } else { "" }));
 }
 
 /// commands accepted immediately after the networks were scheduled, before any of their tasks has been polled
@@ -361,6 +372,9 @@ pub fn run(out: &mut Out, tier: &str, rng: &mut Rng) {
     for clients in [1usize, 2, 3, 5] {
         via_server(out, clients);
     }
+    // as many clients at once as the server is meant for (NETWORK_MAX_CLIENTS = 16) and one more, then late ones
+    via_server_late(out, 16, 2);
+    via_server_late(out, 17, 1);
     for burst in [2usize, 5] {
         via_session_bad_header(out, burst);
     }
